@@ -320,6 +320,8 @@ def run_suite(suite, tier, seed, tag, replay_in=None, extra_env=None):
             continue
         k = int(f[0])
         line = lines[k - 1]
+        if k >= 2 and lines[k - 2].startswith("# crash "):
+            res.extra.setdefault("ids", {})[k] = lines[k - 2][len("# crash "):].strip()
         status, oracles, nontriv, cls = f[1], f[2], f[3] == "1", f[4]
         model_fails = len(f) > 5 and f[5] == "1"
         only_o = suite.get("oracles")
